@@ -95,7 +95,7 @@ PROPS = {
         history_components=[],
         extra_suites=[suites.meshgen_suite],
         assumptions=["blends in [0,1] (the undocumented span_cos_spacing == 2 branch is not modelled)",
-                     "unify_mesh is modelled (Unify.lean, compared exactly with the real function, detached sections and both shift settings included); CRM planform data and the multi-section mesh generator (geometry_mesh_gen.py) are evaluated on the real code by the oracle, not modelled"],
+                     "unify_mesh is modelled (Unify.lean, compared exactly with the real function, detached sections and both shift settings included); the multi-section mesh generator is modelled too (Sections.lean); CRM planform data are evaluated on the real code by the oracle, not modelled"],
     ),
     "C20": dict(
         components=[],
